@@ -42,8 +42,8 @@ TRUSTED_BASE = [
     "the Python original on threshold inputs",
     "hand model lean/PdfVerif/Model/Layout.lean and lean/PdfVerif/Model/Plane.lean (tree correspondence at every scale)",
     "exact rationals stand for Python floats; thresholds are only generated for dyadic parameters",
-    "id()-dependent tie-break of group_textboxes is not modelled: cases with equal minimal distances are compared "
-    "without the merge-order-dependent part (flag `tie`)",
+    "tie-break of group_textboxes = creation numbers (fix 0d18780) = `HEntry.le` of the model, the order C09_scale is "
+    "proved for: cases with equal minimal distances (flag `tie`) are compared completely and get no scale exemption",
 ]
 ASSUMPTIONS = [
     "coordinates and LAParams are exact rationals (dyadic); for non-dyadic parameters (the default 0.1) float "
@@ -63,6 +63,10 @@ STATEMENT_STATUS: Dict[str, str] = {
     "C09_neighbour_iff": "proved: find_neighbors through the grid index = documented relation (line_margin >= 0, "
                          "non-empty lines, well-formed page; uses C20 plane_find)",
     "C09_no_neighbour_if_negative": "proved",
+    "C09_order_two_boxes": "proved, full statement for pages that end with two text boxes (any items, parameters, heap "
+                           "tie-break): the output order is the key order (one group, members sorted by key_lrtb / key_tbrl)",
+    "C09_column_order_two": "proved: on such a page the lower box of a column is never first (boxes_flow > -1), the right "
+                            "one of two columns never first (boxes_flow < 1); checked on the implementation (two-boxes)",
     "C09_column_order_partial": "partial (numeric boxes_flow): sort-key inequalities only; that a column is merged before the "
                                 "columns are joined is tested on generated layouts, not proved",
     "C09_order_none": "proved (full): with boxes_flow=None the boxes come out sorted by the positional key - a column top to "
@@ -595,6 +599,72 @@ def run_columns(ctx: C.Ctx, batch) -> None:
                                case, order, got, {"check": "column-order", "ncol": ncol}))
 
 
+# --------------------------------------------------------------------------- pages with two text boxes
+
+def gen_two_boxes(rng):
+    """Two words (runs of 6 x 10 glyphs) that cannot share a box, placed as a column (same left edge), as two columns
+    (same vertical extent) or anywhere; numeric boxes_flow incl. the end points -1 and 1; drawn in either order."""
+    bf = rng.choice([F(1, 2), F(0), F(-1, 2), F(3, 4), F(-3, 4), F(1), F(-1), F(1, 4), F(-1, 8)])
+    la = dict(LA0, boxes_flow=S(bf), line_margin=rng.choice(["1/4", "1/2", "0"]))
+    h, w = F(10), F(6)
+    x0, y0 = F(rng.randint(40, 200)), F(rng.randint(300, 600))
+    kind = rng.choice(["column", "columns", "free", "free"])
+    if kind == "column":
+        x1, y1 = x0, y0 + rng.choice([-1, 1]) * F(rng.randint(30, 200))
+    elif kind == "columns":
+        x1, y1 = x0 + rng.choice([-1, 1]) * F(rng.randint(60, 300)), y0
+    else:
+        x1, y1 = x0 + F(rng.randint(-150, 300)), y0 + rng.choice([-1, 1]) * F(rng.randint(30, 250), rng.choice([1, 2, 4]))
+    items, cid = [], 0
+    for (x, y) in ((x0, y0), (x1, y1)):
+        for k in range(rng.randint(1, 4)):
+            cid += 1
+            items.append(["c", cid, S(x + k * w), S(y), S(x + (k + 1) * w), S(y + h), "x"])
+    return {"bbox": ["0", "0", "612", "792"], "la": la, "items": items}, kind
+
+
+def check_two_boxes(ctx: C.Ctx, cases) -> None:
+    """Theorems C09_order_two_boxes / C09_column_order_two on the implementation: when a page ends with exactly two
+    (horizontal) text boxes a, b in output order then key_lrtb(a) <= key_lrtb(b) for the regenerated key, the lower
+    box of a column is never first (boxes_flow > -1) and the right one of two columns is never first (boxes_flow < 1)."""
+    from pdfminer.layout import LTTextBox, LTTextBoxVertical
+    if ctx.driver is None:
+        return
+    reqs, meta = [], []
+    for case, kind in cases:
+        page, err = L.run_impl(case)
+        if err is not None:
+            report(ctx, C.Failure("layout analysis raised", case, "no exception", repr(err), {"check": "exception"}))
+            continue
+        boxes = [b for b in page if isinstance(b, LTTextBox)]
+        ctx.case(("two", json.dumps(case, sort_keys=True)), len(boxes) == 2, branch="two-boxes:%s:%d" % (kind, len(boxes)))
+        if len(boxes) != 2 or any(isinstance(b, LTTextBoxVertical) for b in boxes) or case["la"].get("boxes_flow") is None:
+            continue
+        bf = F(case["la"]["boxes_flow"])
+        for b in boxes:
+            reqs.append("pred key_lrtb " + " ".join(S(x) for x in [bf] + [F(v) for v in b.bbox]))
+        meta.append((case, bf, [tuple(F(v) for v in b.bbox) for b in boxes]))
+    outs = ctx.driver.ask(reqs) if reqs else []
+    for i, (case, bf, (a, b)) in enumerate(meta):
+        ka, kb = F(outs[2 * i]), F(outs[2 * i + 1])
+        ctx.branch("two-boxes:keys-" + ("equal" if ka == kb else "distinct"))
+        bad = None
+        if ka > kb:
+            bad = ("key_lrtb of the first box <= key_lrtb of the second", "%s > %s" % (ka, kb))
+        elif bf > -1 and a[0] == b[0] and a[1] + a[3] < b[1] + b[3]:
+            bad = ("upper box of a column first", "lower box first")
+        elif bf < 1 and a[1] + a[3] == b[1] + b[3] and b[0] < a[0]:
+            bad = ("left column first", "right column first")
+        if bad:
+            report(ctx, C.Failure("the two text boxes of a page do not come out in the documented reading order", case,
+                                  bad[0], bad[1], {"check": "two-box-order"}))
+
+
+def run_two_boxes(ctx: C.Ctx) -> None:
+    rng = ctx.rng
+    check_two_boxes(ctx, [gen_two_boxes(rng) for _ in range(ctx.n(150, 1500))])
+
+
 # --------------------------------------------------------------------------- scale invariance
 
 def equal_key_lines(page) -> bool:
@@ -757,9 +827,9 @@ class TieOracle:
         ctx = self.ctx
         for case, f, ks in self.pending:
             if f.tags.get("check") == "scale" and self.has_tie(case, ks):
-                ctx.branch("scale:difference-under-id-tie")
-                if f.tags.get("weak_same"):
-                    continue
+                # no exemption any more: since fix 0d18780 ties are broken by creation numbers (= `HEntry.le`,
+                # the order `C09_scale` is proved for), so a scale difference under a tie is a violation too
+                ctx.branch("scale:difference-under-tie")
             # shrink over the items
             if f.tags.get("check") == "scale":
                 k = f.tags["k"]
@@ -767,7 +837,7 @@ class TieOracle:
                 def still(items):
                     c2 = dict(case, items=items)
                     f2 = scale_check(ctx, c2, C8.Batch(ctx), [k])
-                    return f2 is not None and f2.tags.get("check") == "scale" and not self.has_tie(c2, [k])
+                    return f2 is not None and f2.tags.get("check") == "scale"
                 if still(case["items"]):
                     items = C.ddmin(list(case["items"]), still, max_tests=120)
                     c2 = dict(case, items=items)
@@ -878,8 +948,7 @@ def run_documents(ctx: C.Ctx) -> None:
             ctx.disagree("doc", {"la": la, "items": items}, got, out[:200])
             continue
         if "tie" in parts[2]:
-            ctx.branch("doc:tie")
-            continue
+            ctx.branch("doc:tie")          # decided like every other case (tie-break = creation numbers)
         exp = text_from_dump(parts[0], texts)
         if exp != got:
             ctx.disagree("doc.extract_text", {"la": la, "items": items}, got, exp)
@@ -1033,6 +1102,8 @@ def replay(ctx: C.Ctx, doc, batch=None) -> None:
             if not same_line and spec != same_box:
                 report(ctx, C.Failure("two lines are (not) joined into one box against the documented neighbour relation",
                                    inp, spec, same_box, tags))
+        elif check == "two-box-order":
+            check_two_boxes(ctx, [(inp, "replay")])
         elif check == "column-order":
             page, err = L.run_impl(inp)
             if err is not None:
@@ -1063,6 +1134,7 @@ def run(ctx: C.Ctx) -> None:
     run_defaults(ctx)
     run_predicates(ctx)
     run_columns(ctx, batch)
+    run_two_boxes(ctx)
     run_components(ctx)
     run_documents(ctx)
     run_big_scale(ctx, batch)
